@@ -70,7 +70,7 @@ begin_num_chars = re.compile(r"[0-9\-]")
 maybe_num_chars = re.compile(r"[0-9A-Za-z/.+]")
 integer_literal = re.compile(r"(-?(?:\d|[1-9]\d+))N?")
 float_literal = re.compile(r"(-?(?:\d|[1-9]\d+)(?:\.\d*)?)M?")
-complex_literal = re.compile(r"-?(\d+(?:\.\d*)?)J")
+complex_literal = re.compile(r"-?(\d+(?:\.\d*)?(?:[Ee][+\-]?\d+)?)J")
 arbitrary_base_literal = re.compile(r"-?(\d{1,2})r([0-9A-Za-z]+)")
 octal_literal = re.compile("-?0([0-7]+)N?")
 hex_chars = re.compile("[0-9A-Fa-f]")
@@ -946,7 +946,8 @@ def _read_num(  # pylint: disable=too-many-locals,too-many-statements
             return -v if neg else v
     elif (match := complex_literal.fullmatch(s)) is not None:
         imaginary_raw = match.group(1)
-        imaginary = float(imaginary_raw) if "." in imaginary_raw else int(imaginary_raw)
+        is_float = "." in imaginary_raw or "e" in imaginary_raw or "E" in imaginary_raw
+        imaginary = float(imaginary_raw) if is_float else int(imaginary_raw)
         return complex(0, -imaginary if neg else imaginary)
     raise ctx.syntax_error(f"Invalid number format: {s}")
 
